@@ -149,8 +149,19 @@ func (account Account) Validate() error {
 	return nil
 }
 
+// CanonicalId identifies the account: a base account is its address, however its bech32 string is spelled
+// (the upper-case spelling of an address is valid bech32 and decodes to the same account)
+func (account Account) CanonicalId() string {
+	if account.Type == BaseAccount {
+		if address, err := sdk.AccAddressFromBech32(account.Id); err == nil {
+			return address.String()
+		}
+	}
+	return account.Id
+}
+
 func (account Account) GetAccountKey() string {
-	return account.Type + "-" + account.Id
+	return account.Type + "-" + account.CanonicalId()
 }
 
 func accountExistInMacPerms(accountId string) bool {
@@ -248,7 +259,7 @@ func getId(account *Account) string {
 	if account.Type == Main {
 		return Main
 	}
-	return account.Type + "-" + account.Id
+	return account.Type + "-" + account.CanonicalId()
 }
 
 func isAccountPositionValidatable(accType string) bool {
